@@ -615,6 +615,10 @@ func hook(c rescorr.Case, ms *yang.Modules, errs []error, out *rescorr.GoOut) {
 			}
 		}
 	}
+	// ---- phase 2d (from-disk cases, disk.go): the nodes the all-explicit run has and these trees lack
+	if diskExpect != nil {
+		qs = append(qs, diskQueries(ms, w, diskExpect, r, ctxOf, add)...)
+	}
 	nReadOnly := len(qs)
 	// ---- phase 3: absent rpc/action input and output are created (twice: the second lookup finds it)
 	for bi, b := range w.nodes {
@@ -668,6 +672,8 @@ func hook(c rescorr.Case, ms *yang.Modules, errs []error, out *rescorr.GoOut) {
 		// the expectation in the same notation
 		want := "none"
 		switch {
+		case strings.HasPrefix(q.expect, "x"): // a location given literally (a node these trees lack)
+			want = q.expect[1:]
 		case strings.HasPrefix(q.expect, "t"):
 			j, _ := strconv.Atoi(q.expect[1:])
 			want = w.trees[w.nodes[j].tree].ref + "/" + encSteps(w.nodes[j].steps) + "/" + lib.HexS(w.nodes[j].e.Path())
@@ -1120,10 +1126,21 @@ func runCases(cases []rescorr.Case, f *lib.Flags) []worked {
 			ws[i].crashed, ws[i].msg = true, "unreadable worker output"
 			continue
 		}
-		if ws[i].g.ParseErr != "" || ws[i].g.Extra == nil || len(ws[i].g.Extra["rejected"]) > 0 {
+		if ws[i].g.ParseErr != "" || ws[i].g.Extra == nil || len(ws[i].g.Extra["rejected"]) > 0 || len(ws[i].g.Extra["disk_errors_differ"]) > 0 {
 			continue
 		}
-		r1, r2 := findRequest(c, ws[i].g.Extra["q"]), pathsRequest(c)
+		mc := c
+		if c.Extra["disk"] == "1" && len(ws[i].g.Extra["disk_skipped"]) == 0 {
+			// the model is asked with the texts that ended up loaded
+			mc.Names, mc.Texts = nil, nil
+			for _, s := range ws[i].g.Extra["loaded"] {
+				if k, err := strconv.Atoi(s); err == nil && k >= 0 && k < len(c.Names) {
+					mc.Names = append(mc.Names, c.Names[k])
+					mc.Texts = append(mc.Texts, c.Texts[k])
+				}
+			}
+		}
+		r1, r2 := findRequest(mc, ws[i].g.Extra["q"]), pathsRequest(mc)
 		if r1 == "" {
 			continue
 		}
@@ -1159,8 +1176,33 @@ func judge(w worked, res *lib.Result, t *tally, verbose bool) (bad bool) {
 		report(lib.Disagreement{Kind: "crash", Go: w.msg, SpecVerdict: "violates", What: "goyang crashed or hung during Process/Find: " + firstLine(w.msg)})
 		return
 	}
+	if d := w.g.Extra["disk"]; len(d) == 7 {
+		if len(w.g.Extra["disk_skipped"]) > 0 {
+			t.kinds["disk-sets-run-the-ordinary-way("+w.g.Extra["disk_skipped"][0]+")"]++
+		} else {
+			t.kinds["disk-sets"]++
+			t.kinds["disk-sets-layout-"+d[0]+"/"+d[1]]++
+			for k, what := range []string{"disk-modules-loaded", "disk-modules-found-on-the-path", "disk-found-modules-with-augments", "disk-found-modules-with-deviations", "disk-found-modules-with-choices"} {
+				v, _ := strconv.Atoi(d[2+k])
+				t.kinds[what] += int64(v)
+			}
+			if v, _ := strconv.Atoi(d[4]); v > 0 {
+				t.kinds["disk-sets-with-augments-in-found-modules"]++
+			}
+		}
+	} else if len(w.g.Extra["disk_skipped"]) > 0 {
+		t.kinds["disk-sets-run-the-ordinary-way("+w.g.Extra["disk_skipped"][0]+")"]++
+	}
+	if len(w.g.Extra["disk_errors_differ"]) > 0 {
+		for _, x := range w.g.Findings {
+			report(lib.Disagreement{Kind: "spec", Go: x, SpecVerdict: "violates", What: "Go-side oracle: " + x})
+		}
+		return
+	}
 	if w.g.ParseErr != "" || w.g.Extra == nil || len(w.g.Extra["rejected"]) > 0 {
-		if len(w.g.Extra["rejected"]) > 0 {
+		if len(w.g.Extra["rejected"]) > 0 && len(w.g.Extra["disk"]) > 0 {
+			t.kinds["disk-sets-with-errors-both-ways"]++
+		} else if len(w.g.Extra["rejected"]) > 0 {
 			t.kinds["set-rejected-as-expected"]++
 		}
 		t.noTrees++
@@ -1220,7 +1262,7 @@ func judge(w worked, res *lib.Result, t *tally, verbose bool) (bad bool) {
 			t.kinds[kf[0]]++
 		}
 		switch classOf {
-		case "abs", "abs-bare", "dot":
+		case "abs", "abs-bare", "dot", "disk-abs", "disk-rel":
 			t.absQ++
 		case "rel", "rel-high":
 			t.relQ++
@@ -1361,7 +1403,7 @@ func firstN(s string, n int) string {
 func main() {
 	f := lib.ParseFlags()
 	if lib.IsChild() {
-		rescorr.ServeChild(hook)
+		lib.ChildLoop(serveCase)
 		return
 	}
 	if f.Replay != "" {
@@ -1395,6 +1437,7 @@ func main() {
 		}
 	}
 	work(corpus(), 2)
+	work(diskCorpus(), 9)
 	// generated sets, in batches (a batch holds all its lookups and answers in memory)
 	const batch = 400
 	for lo := 0; lo < n; lo += batch {
@@ -1402,6 +1445,10 @@ func main() {
 		for i := lo; i < lo+batch && i < n; i++ {
 			r := f.Rand(i)
 			cfg := gen.Default()
+			onDisk := i%6 == 4 // a share of the sets runs from disk (disk.go); i%4 is 0 or 2 there: no deliberate faults
+			if onDisk && i%12 == 4 {
+				cfg.MaxModules = 4
+			}
 			switch i % 4 {
 			case 0, 1: // clean sets: every structure, no deliberate faults
 				cfg.BadRefs = false
@@ -1420,13 +1467,24 @@ func main() {
 			if i%8 == 1 || i%8 == 6 {
 				addIONamed(r, set)
 			}
-			if i%4 == 1 {
+			if i%4 == 1 || onDisk && i%12 == 10 {
 				addLateAugments(r, set)
 			}
+			if onDisk {
+				addOwnAugments(r, set)
+			}
 			names, texts := set.Files()
-			cases = append(cases, rescorr.Case{Names: names, Texts: texts, IgnoreNotSupported: i%7 == 3,
+			cs := rescorr.Case{Names: names, Texts: texts, IgnoreNotSupported: i%7 == 3,
 				Extra: map[string]string{"seed": strconv.FormatInt(f.Seed*7919+int64(i), 10), "max_pairs": strconv.Itoa(maxPairs), "label": "gen" + strconv.Itoa(i),
-					"kept": b01(keptShare(i))}})
+					"kept": b01(keptShare(i))}}
+			if onDisk {
+				hand := "parse"
+				if r.Intn(3) == 0 {
+					hand = "read"
+				}
+				cs = asDisk(cs, diskSplit(r, set.Mods, r.Intn(4)), diskLayouts[r.Intn(len(diskLayouts))], hand)
+			}
+			cases = append(cases, cs)
 		}
 		every := 0
 		if lo == 0 {
